@@ -57,6 +57,10 @@ claim("C14", "closed-world SQL statement inventory + provenance + rollback-on-al
       "Decides over the whole production program that the only statements ever issued on the source handle are the enumerated constant statements on litestream's own two tables, the three PRAGMAs and SELECTs, that no transaction is ever committed and every transaction on the source is rolled back on every path, that the database file handle is read-only and no path derived from the source path is created/removed/renamed. SQLite honouring the statements is assumed.",
       _TB, "DESIGN.md 3/C14")
 
+claim("C04", "edge-cut reachability (default-deny) + provenance + call-graph reachability on the continuity decision",
+      "Decides necessary conditions of 're-snapshot unless continuity is proven' on every path: snapshot is the default and each 'continue incrementally' is reachable only through its evidence edges; helper verdicts are pinned; session state is cleared by Close; wiping local state on a live database re-baselines; the salt-change branch inspects the WAL at the old cursor. Four genuine defects were found by these rules and fixed (F1, F2, F3 and the init wedge F8 under C05). Sufficiency of the evidence for all SQLite histories is not decidable from shape and is not claimed.",
+      _TB, "DESIGN.md 3/C04")
+
 _pending = "check not built yet in this revision (planned, see DESIGN.md section 3); not claimed until its rules run clean on the unchanged tree"
-for _p in ["C04","C06","C13","C18"]:
+for _p in ["C06","C13","C18"]:
     na(_p, _pending)
